@@ -378,6 +378,26 @@ def rule_must_verify(ctx):
             okp = "ok" not in tab.get(allfalse, {"ok"})
         if len(atoms) == 1:
             ctx.ob(R, "%s::verify propagates %s" % (short, names[0]), okp, "Ok is unreachable when the nested verification fails" if okp else "%s::verify returns Ok although %s failed" % (short, names[0]), f.loc())
+        # per call site: the outcome of each nested verification decides the result - from the call, Ok is reachable only
+        # through the edge taken on its success (or the call's result is itself the returned value)
+        cfg = ctx.cfg(f)
+        RL = Q.ret_locals(f)
+        for c in T.calls():
+            if not (c["q"].endswith("::verify") and c["q"].startswith(mods)):
+                continue
+            if not c["t"]["dest"].get("pr") and c["t"]["dest"]["l"] in RL:
+                continue        # tail call: its result is the result
+            ct = T.call_term(c["t"])
+            e = Q.success_edges(ctx, f, lambda b, ct=ct: b == ct)
+            nxt = [c["t"]["t"]] if "t" in c["t"] else []
+            r = cfg.reach_from(nxt, avoid_edges=frozenset(e)) if nxt else set()
+            # the call's result (through map_err / context) is what the function returns on that path
+            tail = any(x == ct for v in common.value_terms(f, T, ("var", 0)) + common.value_terms(f, T, T.local(0)) for x in subterms(v))
+            if tail and oks:
+                tail = not (set(oks) & r)
+            okc = (bool(e) and not (set(oks) & r)) or tail
+            ctx.ob(R, "%s::verify: outcome of %s is not dropped" % (short, c["q"].split("::")[-2] + "::verify"), okc, "Ok is reachable from this call only through its success" if okc else
+                   "%s::verify can return Ok although the nested %s failed (its result is ignored or not propagated)" % (short, c["q"].split("::")[-2] + "::verify"), f.loc(c["t"].get("ln")))
 
 
 def rule_signed_and_view(ctx):
